@@ -296,8 +296,10 @@ CimVal(V, it) ==
        IN IF x = <<>> THEN ErrV("IndexError")              \* val[0]
           ELSE IF x \in {<<"T">>, <<"F">>}
                THEN OkV(Val("boolean", "", x, <<>>))
-          ELSE IF IsInt(x) THEN OkV(Val("int", "py", x, <<>>))
-          ELSE IF IsReal(V, x) THEN OkV(Val("real", "py", x, <<>>))
+          \* the literal patterns end with '$': one trailing newline passes
+          ELSE IF IsInt(StripLf(x)) THEN OkV(Val("int", "py", StripLf(x), <<>>))
+          ELSE IF IsReal(V, StripLf(x))
+               THEN OkV(Val("real", "py", StripLf(x), <<>>))
           ELSE IF IsDT(V, x) THEN OkV(Val("datetime", "", <<x[1]>>, <<>>))
           ELSE ErrV("ValueError")
 
